@@ -61,6 +61,7 @@ fn replay_doc(args: &[String]) {
     use automerge::transaction::CommitOptions;
     world::silence_panics();
     let with_list = args.get(4).map(|s| s == "list").unwrap_or(false);
+    let with_c3 = args.get(4).map(|s| s == "conflict3").unwrap_or(false);
     let with_text: Option<automerge::TextEncoding> = args.get(4).and_then(|s| s.strip_prefix("text:")).map(world::enc_from);
     let text = std::fs::read_to_string(&args[2]).expect("behaviours");
     let mut nb = 0usize;
@@ -112,6 +113,25 @@ fn replay_doc(args: &[String]) {
         }
         // change id (start op counter, actor) -> hash, for historical reads
         let mut chash: BTreeMap<(i64, i64), automerge::ChangeHash> = BTreeMap::new();
+        if with_c3 {
+            // three concurrent values at k1 by actors 1, 2, 3; every replica knows all of them
+            let vals = [json!({"k":"counter","s":"","n":5,"toks":[]}), json!({"k":"int","s":"1","n":0,"toks":[]}), json!({"k":"int","s":"2","n":0,"toks":[]})];
+            let mut made: Vec<Automerge> = vec![];
+            for k in 1..=3i64 {
+                let mut d = Automerge::new().with_actor(enc::actor_from_num(k as u8));
+                let mut tx = d.transaction();
+                calls::exec(&mut tx, &json!({"fn":"put","obj":[0,0],"key":"k1","val":vals[(k - 1) as usize]}));
+                let (h, _) = tx.commit_with(CommitOptions::default().with_time(0));
+                chash.insert((1, k), h.unwrap());
+                made.push(d);
+            }
+            for k in 1..=3i64 {
+                for m in made.iter() {
+                    let mut m2 = m.clone();
+                    reps.get_mut(&k).unwrap().merge(&mut m2).unwrap();
+                }
+            }
+        }
         if with_list || with_text.is_some() {
             if let Some(c) = reps[&1].get_changes(&[]).first() {
                 chash.insert((1, 1), c.hash());
@@ -165,6 +185,7 @@ fn replay_doc(args: &[String]) {
                 continue;
             }
             let mut newchange: Option<((i64, i64), automerge::ChangeHash)> = None;
+            let mut inside: Option<J> = None;
             let res = catch_unwind(AssertUnwindSafe(|| {
                 let res;
                 if let Some(s) = step.get("merge").and_then(|m| m.as_i64()) {
@@ -187,13 +208,21 @@ fn replay_doc(args: &[String]) {
                     }
                     res = if d.save() == before_save { "any".to_string() } else { "saved-bytes-changed".to_string() };
                 } else {
+                    let iso: Option<Vec<automerge::ChangeHash>> = step.get("isoat").and_then(|a| a.as_array()).map(|a| a.iter()
+                        .filter_map(|h| chash.get(&(h[0].as_i64().unwrap_or(0), h[1].as_i64().unwrap_or(0))).copied()).collect());
                     let d = reps.get_mut(&r).unwrap();
-                    let mut tx = d.transaction();
+                    let mut tx = match &iso {
+                        Some(h) => d.transaction_at(automerge::PatchLog::inactive(), h).expect("patch log"),
+                        None => d.transaction(),
+                    };
                     let out = calls::exec(&mut tx, &step["call"]);
+                    if iso.is_some() {
+                        inside = Some(proj::view(&tx, None));
+                    }
                     let (h, _) = tx.commit_with(CommitOptions::default().with_time(0));
                     if let Some(h) = h {
                         if let Some(c) = d.get_change_by_hash(&h) {
-                            newchange = Some(((c.start_op().get() as i64, r), h));
+                            newchange = Some(((c.start_op().get() as i64, enc::actor_num(c.actor_id())), h));
                         }
                     }
                     res = out["res"].as_str().unwrap_or("?").to_string();
@@ -214,6 +243,16 @@ fn replay_doc(args: &[String]) {
                     let b = canon_view(&step["exp"]);
                     if a != b {
                         bad.push("view".to_string());
+                    }
+                    if let Some(ins) = &inside {
+                        if canon_view(ins) != canon_view(&step["inside"]) {
+                            bad.push("isolated_view".to_string());
+                        }
+                    }
+                    // the iterator reads (values / map_range / list_range go through the top index)
+                    // must show the same winners as get / get_all
+                    if let Some(e) = amverif::proj::iter_reads_disagree(&reps[&r]) {
+                        bad.push(format!("iter_reads:{}", e));
                     }
                     if !bad.is_empty() {
                         mism.push(json!({"behaviour": nb - 1, "step": si, "fields": bad, "expected": step, "got": {"res": res, "view": view}, "line": beh}));
